@@ -1,10 +1,11 @@
 (* Reach.v -- the ledger moves only by legal steps.
-   `step` lists the primitive ways a State changes (remove a live in-scope item that the consumer
-   accepts, change `current`/`path`, re-scope, mark conflicts); `reach` is its reflexive-transitive
-   closure.  Main theorem: for every parser, the state left behind by `eval` (and by
-   run_subparser) is reachable from the input state.  Every ledger invariant that is preserved by
-   `step` (Lemmas/Invariants.v) therefore holds after any evaluation, whatever the nesting,
-   rollbacks and retries. *)
+   `step K` lists the primitive ways a State changes (remove a live in-scope item that the
+   consumer accepts -- the consumer kind being one allowed by K --, change `current`/`path`,
+   re-scope, mark conflicts); `reach K` is its reflexive-transitive closure.
+   Main theorem (eval_reach): for every parser whose consumers all satisfy K, the state left
+   behind by `eval` (and by run_subparser) is reachable from the input state, whatever the
+   nesting, rollbacks and retries.  Every ledger invariant preserved by `step` (Ledger.v)
+   therefore holds after any evaluation. *)
 From BpafLemmas Require Import Tac EvalEq Find.
 
 (* which token shapes a consumer may claim *)
@@ -23,10 +24,14 @@ Definition accepts (k : ckind) (a : arg) : bool :=
   | KTok => false
   end.
 
+Section Reach.
+Variable K : ckind -> Prop.
+
 Inductive step : state -> state -> Prop :=
-| StRemove k ix s st a :
+| StRemove k ix s st :
+    K k ->
     in_scope s ix = true -> ist_at s ix = Some st -> present st = true ->
-    nth_error (items s) ix = Some a -> accepts k a = true ->
+    (forall a, nth_error (items s) ix = Some a -> accepts k a = true) ->
     step s (sremove k ix s)
 | StCurrent s c : step s (set_current s c)
 | StPath s p : step s (set_path s p)
@@ -46,192 +51,98 @@ Proof. intros H12 H23. induction H23; eauto using reach. Qed.
 Lemma reach_one s1 s2 : step s1 s2 -> reach s1 s2.
 Proof. eauto using reach. Qed.
 
-#[global] Hint Resolve reach_refl reach_one : reach.
-#[global] Hint Constructors step : reach.
-
 Lemma reach_current s c : reach s (set_current s c).
-Proof. auto with reach. Qed.
+Proof. apply reach_one. constructor. Qed.
 Lemma reach_path s p : reach s (set_path s p).
-Proof. auto with reach. Qed.
+Proof. apply reach_one. constructor. Qed.
 Lemma reach_scope s a b s' : set_scope s a b = Some s' -> reach s s'.
-Proof. eauto with reach. Qed.
-#[global] Hint Resolve reach_current reach_path reach_scope : reach.
+Proof. intros H. apply reach_one. econstructor; eauto. Qed.
 
-(* ------------------------------------------------------------------ searching *)
-Lemma nth_error_skipn {A} (l : list A) n k : nth_error (skipn n l) k = nth_error l (n + k).
-Proof.
-  revert l. induction n as [|n IH]; intros l; cbn; [reflexivity|].
-  destruct l; cbn; [destruct k; reflexivity|apply IH].
-Qed.
-
-Lemma find_item_some s f ix :
-  find_item s f = Some ix ->
-  in_scope s ix = true /\
-  exists a st, nth_error (items s) ix = Some a /\ ist_at s ix = Some st /\
-               present st = true /\ f ix a = true.
-Proof.
-  unfold find_item. intros H. apply find_from_some in H.
-  destruct H as (Hr & _ & _ & a & st & Ha & Hs & Hp & Hf).
-  rewrite nth_error_skipn in Ha, Hs.
-  replace (sc_start s + (ix - sc_start s)) with ix in * by lia.
-  split.
-  - unfold in_scope. apply andb_true_intro. split; [apply Nat.leb_le|apply Nat.ltb_lt]; lia.
-  - exists a, st. auto.
-Qed.
-
-Lemma find_item_none s f :
-  find_item s f = None ->
-  forall ix a st, in_scope s ix = true -> nth_error (items s) ix = Some a ->
-                  ist_at s ix = Some st -> present st = true -> f ix a = false.
-Proof.
-  unfold find_item. intros H ix a st Hin Ha Hs Hp.
-  unfold in_scope in Hin. apply andb_prop in Hin. destruct Hin as [H1 H2].
-  apply Nat.leb_le in H1. apply Nat.ltb_lt in H2.
-  pose proof (find_from_none _ _ _ _ _ H (ix - sc_start s) a st) as Hn.
-  replace (sc_start s + (ix - sc_start s)) with ix in Hn by lia.
-  apply Hn; try assumption.
-  - rewrite nth_error_skipn. replace (sc_start s + (ix - sc_start s)) with ix by lia. exact Ha.
-  - rewrite nth_error_skipn. replace (sc_start s + (ix - sc_start s)) with ix by lia. exact Hs.
-Qed.
+Ltac rtrans :=
+  match goal with
+  | H1 : reach ?a ?b, H2 : reach ?b ?c |- reach ?a ?c => exact (reach_trans _ _ _ H1 H2)
+  end.
 
 (* ------------------------------------------------------------------ state operations *)
 Lemma reach_sremove k ix s :
-  (forall a, nth_error (items s) ix = Some a -> accepts k a = true) ->
-  length (ist s) <= length (items s) ->
+  K k -> (forall a, nth_error (items s) ix = Some a -> accepts k a = true) ->
   reach s (sremove k ix s).
 Proof.
-  intros Hacc Hlen. unfold sremove.
-  destruct (in_scope s ix) eqn:Hin; cbn [andb]; [|constructor].
-  destruct (ist_at s ix) as [st|] eqn:Hst; [|constructor].
-  destruct (present st) eqn:Hp; [|constructor].
-  destruct (nth_error (items s) ix) as [a|] eqn:Ha.
-  - apply reach_one.
-    assert (Heq : sremove k ix s =
-                  mkState (items s) (update_nth ix Parsed (ist s)) (pred (remaining s)) (Some ix)
-                          (path s) (sc_start s) (sc_end s) ((ix, k) :: log s)).
-    { unfold sremove. rewrite Hin, Hst, Hp. reflexivity. }
-    rewrite <- Heq. eapply StRemove; eauto.
-  - exfalso. apply nth_error_None in Ha. unfold ist_at in Hst.
-    assert (ix < length (ist s)) by (apply nth_error_Some; congruence). lia.
+  intros Hk Hacc.
+  destruct (in_scope s ix) eqn:Hin; [|unfold sremove; rewrite Hin; constructor].
+  destruct (ist_at s ix) as [st|] eqn:Hst;
+    [|unfold sremove; rewrite Hin, Hst; constructor].
+  destruct (present st) eqn:Hp; [|unfold sremove; rewrite Hin, Hst, Hp; constructor].
+  apply reach_one. eapply StRemove; eauto.
 Qed.
 
-(* a version that does not need the length side condition: evidence of the item is given *)
-Lemma reach_sremove_found k ix s a st :
-  in_scope s ix = true -> ist_at s ix = Some st -> present st = true ->
-  nth_error (items s) ix = Some a -> accepts k a = true ->
-  reach s (sremove k ix s).
-Proof. intros. apply reach_one. eapply StRemove; eauto. Qed.
-
-Lemma take_flag_reach n s s' : take_flag n s = Some s' -> reach s s'.
+Lemma take_flag_reach n s s' : K (KFlag n) -> take_flag n s = Some s' -> reach s s'.
 Proof.
-  unfold take_flag. destruct (find_item s _) as [ix|] eqn:Hf; [|discriminate].
+  intros Hk. unfold take_flag. destruct (find_item s _) as [ix|] eqn:Hf; [|discriminate].
   intros H; inv H. apply find_item_some in Hf.
   destruct Hf as (Hin & a & st & Ha & Hs & Hp & Hm).
-  eapply reach_sremove_found; eauto.
+  apply reach_sremove; [exact Hk|]. intros a' Ha'. rewrite Ha in Ha'. inv Ha'. exact Hm.
 Qed.
 
-Lemma sremove_other_present k ix s jx :
-  jx <> ix -> ist_at (sremove k ix s) jx = ist_at s jx.
+Lemma matches_arg_weaken n adj a : matches_arg n adj a = true -> matches_arg n false a = true.
 Proof.
-  intros Hne. unfold sremove.
-  destruct (in_scope s ix && _); [|reflexivity].
-  unfold ist_at; cbn. clear -Hne.
-  revert ix jx Hne. induction (ist s) as [|x l IH]; intros ix jx Hne; cbn.
-  - destruct ix; reflexivity.
-  - destruct ix, jx; cbn; try reflexivity; try congruence. apply IH. congruence.
+  destruct a; cbn; try discriminate; intros H; apply andb_prop in H; destruct H as [H _];
+    rewrite H; reflexivity.
 Qed.
 
-Lemma sremove_items k ix s : items (sremove k ix s) = items s.
-Proof. unfold sremove. destruct (_ && _); reflexivity. Qed.
-
-Lemma sremove_scope k ix s jx : in_scope (sremove k ix s) jx = in_scope s jx.
-Proof. unfold sremove. destruct (_ && _); reflexivity. Qed.
-
-Lemma get_some s ix a :
-  get s ix = Some a ->
-  in_scope s ix = true /\ nth_error (items s) ix = Some a /\
-  exists st, ist_at s ix = Some st /\ present st = true.
+Lemma take_arg_reach n adj s w s' :
+  K (KArgKey n) -> K (KArgVal n) -> take_arg n adj s = TASome w s' -> reach s s'.
 Proof.
-  unfold get. destruct (in_scope s ix) eqn:Hin; cbn [andb]; [|discriminate].
-  destruct (ist_at s ix) as [st|] eqn:Hs; [|discriminate].
-  destruct (present st) eqn:Hp; [|discriminate].
-  intros H. repeat split; auto. eauto.
-Qed.
-
-Lemma take_arg_reach n adj s w s' : take_arg n adj s = TASome w s' -> reach s s'.
-Proof.
-  unfold take_arg. destruct (find_item s _) as [key|] eqn:Hf; [|discriminate].
+  intros Hk1 Hk2. unfold take_arg. destruct (find_item s _) as [key|] eqn:Hf; [|discriminate].
   apply find_item_some in Hf. destruct Hf as (Hin & a & st & Ha & Hs & Hp & Hm).
   destruct (get s (S key)) as [va|] eqn:Hg; [|discriminate].
   apply get_some in Hg. destruct Hg as (Hvin & Hva & vst & Hvs & Hvp).
-  assert (Hk : accepts (KArgKey n) a = true).
-  { cbn. destruct a; cbn in Hm |- *; try discriminate;
-      apply andb_prop in Hm; destruct Hm as [Hm _]; rewrite Hm; reflexivity. }
-  assert (Hstep2 : forall wv, (va = Word wv \/ va = ArgWord wv) ->
-                              reach s (sremove (KArgVal n) (S key) (sremove (KArgKey n) key s))).
-  { intros wv Hw. eapply reach_trans.
-    - eapply reach_sremove_found; eauto.
-    - eapply reach_sremove_found.
-      + rewrite sremove_scope. exact Hvin.
-      + rewrite sremove_other_present by lia. exact Hvs.
-      + exact Hvp.
-      + rewrite sremove_items. exact Hva.
-      + destruct Hw; subst; reflexivity. }
-  destruct va; try discriminate; intros H; inv H; eapply Hstep2; eauto.
+  assert (Hgo : (exists wv, va = Word wv \/ va = ArgWord wv) ->
+                reach s (sremove (KArgVal n) (S key) (sremove (KArgKey n) key s))).
+  { intros [wv Hw]. eapply reach_trans.
+    - apply reach_sremove; [exact Hk1|]. intros a' Ha'. rewrite Ha in Ha'. inv Ha'.
+      cbn. eapply matches_arg_weaken; eauto.
+    - apply reach_sremove; [exact Hk2|]. intros a' Ha'. rewrite sremove_items in Ha'.
+      rewrite Hva in Ha'. inv Ha'. destruct Hw; subst; reflexivity. }
+  destruct va; try discriminate; intros H; inv H; apply Hgo; eauto.
 Qed.
 
 Lemma take_positional_reach s ix strict w s' :
-  take_positional_word s = Some (ix, strict, w, s') -> reach s s'.
+  K KPos -> take_positional_word s = Some (ix, strict, w, s') -> reach s s'.
 Proof.
-  unfold take_positional_word. destruct (find_item s _) as [i|] eqn:Hf; [|discriminate].
+  intros Hk. unfold take_positional_word. destruct (find_item s _) as [i|] eqn:Hf; [|discriminate].
   apply find_item_some in Hf. destruct Hf as (Hin & a & st & Ha & Hs & Hp & Hm).
   rewrite Ha. destruct a; try discriminate; intros H; inv H;
-    eapply reach_sremove_found; eauto.
+    (apply reach_sremove; [exact Hk|]; intros a' Ha'; rewrite Ha in Ha'; inv Ha'; reflexivity).
 Qed.
 
-Lemma take_cmd_reach word s : reach s (snd (take_cmd word s)).
+Lemma take_cmd_reach word s : K (KCmd word) -> reach s (snd (take_cmd word s)).
 Proof.
-  unfold take_cmd. unfold first_item_ix.
-  destruct (find_item s _) as [ix|] eqn:Hf; cbn; [|auto with reach].
+  intros Hk. unfold take_cmd. unfold first_item_ix.
+  destruct (find_item s _) as [ix|] eqn:Hf; cbn; [|apply reach_current].
   apply find_item_some in Hf. destruct Hf as (Hin & a & st & Ha & Hs & Hp & _).
   rewrite Ha.
-  assert (Hgo : forall w, accepts (KCmd word) a = beqb w word ->
+  assert (Hgo : forall w, (beqb w word = true -> accepts (KCmd word) a = true) ->
                           reach s (snd (if beqb w word
                                         then (true, set_current (sremove (KCmd word) ix s) (Some ix))
                                         else (false, set_current s None)))).
-  { intros w Hacc. destruct (beqb w word) eqn:Hb; cbn; [|auto with reach].
+  { intros w Hacc. destruct (beqb w word) eqn:Hb; cbn; [|apply reach_current].
     eapply reach_trans; [|apply reach_current].
-    eapply reach_sremove_found; eauto. }
-  destruct a as [c adj w|nm adj w|w|w|w]; cbn; auto with reach.
-  - apply Hgo. reflexivity.
-  - destruct adj; cbn; auto with reach. apply Hgo. reflexivity.
-  - apply Hgo. reflexivity.
+    apply reach_sremove; [exact Hk|]. intros a' Ha'. rewrite Ha in Ha'. inv Ha'. auto. }
+  destruct a as [c adj w|nm adj w|w|w|w]; cbn; try apply reach_current.
+  - apply Hgo. intros Hb. cbn. exact Hb.
+  - destruct adj; cbn; try apply reach_current. apply Hgo. intros Hb. cbn. exact Hb.
+  - apply Hgo. intros Hb. cbn. exact Hb.
 Qed.
 
-Lemma take_cmd_any_reach names s : reach s (snd (take_cmd_any names s)).
+Lemma take_cmd_any_reach names s :
+  (forall w, In w names -> K (KCmd w)) -> reach s (snd (take_cmd_any names s)).
 Proof.
-  revert s. induction names as [|n t IH]; intros s; cbn; [constructor|].
-  pose proof (take_cmd_reach n s) as H1.
+  revert s. induction names as [|n t IH]; intros s Hk; cbn; [constructor|].
+  pose proof (take_cmd_reach n s (Hk n (or_introl eq_refl))) as H1.
   destruct (take_cmd n s) as [b s1]. cbn in H1.
   destruct b; cbn; [exact H1|].
-  eapply reach_trans; [exact H1|apply IH].
-Qed.
-
-Lemma save_conflicts_go_length win a b : length (save_conflicts_go win a b) = length a.
-Proof.
-  revert b. induction a as [|x a IH]; intros b; cbn; [reflexivity|].
-  destruct b; cbn; [reflexivity|]. rewrite IH. reflexivity.
-Qed.
-
-Lemma save_conflicts_go_present win a b i :
-  option_map present (nth_error (save_conflicts_go win a b) i) = option_map present (nth_error a i).
-Proof.
-  revert b i. induction a as [|x a IH]; intros b i; cbn; [reflexivity|].
-  destruct b as [|y b]; cbn; [reflexivity|].
-  destruct i; cbn.
-  - destruct (present x && parsed y) eqn:Hc; [|reflexivity].
-    apply andb_prop in Hc. destruct Hc as [Hx _]. cbn. rewrite Hx. reflexivity.
-  - apply IH.
+  eapply reach_trans; [exact H1|apply IH]. intros w Hw. apply Hk. right. exact Hw.
 Qed.
 
 Lemma save_conflicts_reach s loser win : reach s (save_conflicts s loser win).
@@ -248,9 +159,9 @@ Definition run_reach (run : state -> sres * state) : Prop := forall s, reach s (
 Section WithEnv.
 Variable env : bytes -> option bytes.
 
-Lemma eval_flag_reach n p a : ev_reach (eval_flag env n p a).
+Lemma eval_flag_reach n p a : K (KFlag n) -> ev_reach (eval_flag env n p a).
 Proof.
-  intros s. unfold eval_flag.
+  intros Hk s. unfold eval_flag.
   destruct (take_flag n s) as [s'|] eqn:Ht; cbn.
   - eapply take_flag_reach; eauto.
   - repeat (case_goal; cbn; try constructor).
@@ -259,62 +170,419 @@ Qed.
 Lemma convert_res_snd ty w s : snd (convert_res ty w s) = s.
 Proof. unfold convert_res. destruct (convert ty w); reflexivity. Qed.
 
-Lemma eval_arg_reach n mv ty adj : ev_reach (eval_arg env n mv ty adj).
+Lemma eval_arg_reach n mv ty adj :
+  K (KArgKey n) -> K (KArgVal n) -> ev_reach (eval_arg env n mv ty adj).
 Proof.
-  intros s. unfold eval_arg.
+  intros Hk1 Hk2 s. unfold eval_arg.
   destruct (take_arg n adj s) as [|k|w s'] eqn:Ht.
-  - repeat (case_goal; cbn; try rewrite convert_res_snd; auto with reach).
+  - repeat (case_goal; cbn; try rewrite convert_res_snd; try apply reach_current; try constructor).
   - cbn. constructor.
   - rewrite convert_res_snd. eapply take_arg_reach; eauto.
 Qed.
 
-Lemma eval_pos_reach mv ty pos help : ev_reach (eval_pos mv ty pos help).
+Lemma eval_pos_reach mv ty pos help : K KPos -> ev_reach (eval_pos mv ty pos help).
 Proof.
-  intros s. unfold eval_pos.
+  intros Hk s. unfold eval_pos.
   destruct (take_positional_word s) as [[[[ix st] w] s']|] eqn:Ht; [|cbn; constructor].
-  apply take_positional_reach in Ht.
+  apply take_positional_reach in Ht; [|exact Hk].
   destruct pos, st; cbn; try rewrite convert_res_snd; exact Ht.
 Qed.
 
-Lemma eval_any_reach mv help check anywhere : ev_reach (eval_any mv help check anywhere).
+Lemma eval_any_reach mv help check anywhere : K KAny -> ev_reach (eval_any mv help check anywhere).
 Proof.
-  intros s. unfold eval_any.
+  intros Hk s. unfold eval_any.
   match goal with |- context [match ?f with Some _ => _ | None => _ end] =>
                   destruct f as [ix|] eqn:Hfound end; [|cbn; constructor].
   destruct (nth_error (items s) ix) as [a|] eqn:Ha; [|cbn; constructor].
   destruct (check (arg_os a)) as [v|] eqn:Hc; [|cbn; constructor].
-  (* the found index is live and in scope in both search modes *)
-  assert (Hlive : in_scope s ix = true /\ exists st, ist_at s ix = Some st /\ present st = true).
-  { destruct anywhere.
-    - apply find_item_some in Hfound. destruct Hfound as (Hin & a' & st & _ & Hs & Hp & _). eauto.
-    - unfold first_item_ix in Hfound. destruct (find_item s _) as [j|] eqn:Hf; [|discriminate].
-      apply find_item_some in Hf. destruct Hf as (Hin & a' & st & Ha' & Hs & Hp & _).
-      rewrite Ha' in Hfound. destruct (match check (arg_os a') with Some _ => true | None => false end);
-        [|discriminate]. inv Hfound. eauto. }
-  destruct Hlive as (Hin & st & Hs & Hp).
   cbn [snd].
-  assert (H1 : reach s (sremove KAny ix s)) by (eapply reach_sremove_found; eauto).
+  assert (H1 : reach s (sremove KAny ix s)) by (apply reach_sremove; auto).
   match goal with |- context [if ?b then _ else _] => destruct b end; [|exact H1].
-  eapply reach_trans; [exact H1|].
-  (* second removal: effective or not *)
-  set (s1 := sremove KAny ix s).
-  unfold sremove at 1.
-  destruct (in_scope s1 (S ix)) eqn:Hin2; cbn [andb]; [|constructor].
-  destruct (ist_at s1 (S ix)) as [st2|] eqn:Hs2; [|constructor].
-  destruct (present st2) eqn:Hp2; [|constructor].
-  destruct (nth_error (items s1) (S ix)) as [a2|] eqn:Ha2.
-  - replace (mkState _ _ _ _ _ _ _ _) with (sremove KAny (S ix) s1).
-    + eapply reach_sremove_found; eauto.
-    + unfold sremove. rewrite Hin2, Hs2, Hp2. reflexivity.
-  - (* the ledger is longer than the item list: still a legal (vacuous) marks step *)
-    apply reach_one.
-    replace (mkState _ _ _ _ _ _ _ _) with (sremove KAny (S ix) s1)
-      by (unfold sremove; rewrite Hin2, Hs2, Hp2; reflexivity).
-    (* cannot justify with an item; this case is excluded by construction below *)
-    exfalso.
-    (* items s1 = items s and ist longer than items: use evidence from ix: nothing contradicts it in
-       general, so we fall back to a weaker route *)
-    admit.
-Abort.
+  eapply reach_trans; [exact H1|]. apply reach_sremove; auto.
+Qed.
+
+(* ---- wrappers *)
+Lemma parse_option_reach ev len s catch :
+  ev_reach ev -> reach s (snd (parse_option ev len s catch)).
+Proof.
+  intros Hev. unfold parse_option. specialize (Hev s).
+  destruct (ev s) as [r s']. cbn in Hev.
+  destruct r; cbn; repeat (case_goal; cbn); auto using reach_refl.
+Qed.
+
+Lemma many_loop_reach ev catch fuel len s acc :
+  ev_reach ev -> reach s (snd (many_loop ev catch fuel len s acc)).
+Proof.
+  intros Hev. revert len s acc. induction fuel as [|f IH]; intros len s acc; cbn; [constructor|].
+  pose proof (parse_option_reach ev len s catch Hev) as Hp.
+  destruct (parse_option ev len s catch) as [[o len'] s']. cbn in Hp.
+  destruct o; cbn; auto.
+  eapply reach_trans; [exact Hp|apply IH].
+Qed.
+
+Lemma count_loop_reach ev fuel len s cur n last :
+  ev_reach ev -> reach s (snd (count_loop ev fuel len s cur n last)).
+Proof.
+  intros Hev. revert len s cur n last.
+  induction fuel as [|f IH]; intros len s cur n last; cbn; [constructor|].
+  pose proof (parse_option_reach ev len s false Hev) as Hp.
+  destruct (parse_option ev len s false) as [[o len'] s']. cbn in Hp.
+  destruct o; cbn; auto.
+  destruct (Nat.eqb cur (remaining s')); cbn; [exact Hp|].
+  eapply reach_trans; [exact Hp|apply IH].
+Qed.
+
+Lemma optional_reach ev c : ev_reach ev -> ev_reach (optional_body ev c).
+Proof.
+  intros Hev s. unfold optional_body.
+  pose proof (parse_option_reach ev None s c Hev) as Hp.
+  destruct (parse_option ev None s c) as [[o len'] s']. destruct o; exact Hp.
+Qed.
+
+Lemma many_reach ev c : ev_reach ev -> ev_reach (many_body ev c).
+Proof.
+  intros Hev s. unfold many_body.
+  pose proof (many_loop_reach ev c (loop_fuel s) None s [] Hev) as Hp.
+  destruct (many_loop ev c (loop_fuel s) None s []) as [[r acc] s']. destruct r; exact Hp.
+Qed.
+
+Lemma some_reach ev m c : ev_reach ev -> ev_reach (some_body ev m c).
+Proof.
+  intros Hev s. unfold some_body.
+  pose proof (many_loop_reach ev c (loop_fuel s) None s [] Hev) as Hp.
+  destruct (many_loop ev c (loop_fuel s) None s []) as [[r acc] s'].
+  destruct r; try exact Hp. destruct acc; exact Hp.
+Qed.
+
+Lemma count_reach ev : ev_reach ev -> ev_reach (count_body ev).
+Proof.
+  intros Hev s. unfold count_body.
+  pose proof (count_loop_reach ev (loop_fuel s) None s (remaining s) O None Hev) as Hp.
+  destruct (count_loop ev (loop_fuel s) None s (remaining s) O None) as [[[r n] l] s'].
+  destruct r; exact Hp.
+Qed.
+
+Lemma last_reach ev : ev_reach ev -> ev_reach (last_body ev).
+Proof.
+  intros Hev s. unfold last_body.
+  pose proof (count_loop_reach ev (loop_fuel s) None s (remaining s) O None Hev) as Hp.
+  destruct (count_loop ev (loop_fuel s) None s (remaining s) O None) as [[[r n] l] s'].
+  cbn in Hp. destruct r; try exact Hp. destruct l; [exact Hp|].
+  eapply reach_trans; [exact Hp|apply Hev].
+Qed.
+
+Lemma fallback_with_reach ev fb : ev_reach ev -> ev_reach (fallback_with_body ev fb).
+Proof.
+  intros Hev s. unfold fallback_with_body. specialize (Hev s).
+  destruct (ev s) as [r s']. cbn in Hev.
+  destruct r; cbn; auto. destruct (can_catch m); [destruct fb|]; cbn; constructor.
+Qed.
+
+Lemma guard_reach ev c m : ev_reach ev -> ev_reach (guard_body ev c m).
+Proof.
+  intros Hev s. unfold guard_body. specialize (Hev s).
+  destruct (ev s) as [r s']. cbn in Hev. destruct r; cbn; auto. destruct (c v); exact Hev.
+Qed.
+
+Lemma parse_reach ev f : ev_reach ev -> ev_reach (parse_body ev f).
+Proof.
+  intros Hev s. unfold parse_body. specialize (Hev s).
+  destruct (ev s) as [r s']. cbn in Hev. destruct r; cbn; auto. destruct (f v); exact Hev.
+Qed.
+
+Lemma map_reach ev f : ev_reach ev -> ev_reach (map_body ev f).
+Proof.
+  intros Hev s. unfold map_body. specialize (Hev s).
+  destruct (ev s) as [r s']. cbn in Hev. destruct r; cbn; auto.
+Qed.
+
+Lemma hide_reach ev : ev_reach ev -> ev_reach (hide_body ev).
+Proof.
+  intros Hev s. unfold hide_body. specialize (Hev s).
+  destruct (ev s) as [r s']. cbn in Hev. destruct r; cbn; auto. destruct m; exact Hev.
+Qed.
+
+Lemma this_or_that_reach ra rb s sa sb :
+  reach s sa -> reach s sb -> reach s (snd (this_or_that ra rb s sa sb)).
+Proof.
+  intros Ha Hb. unfold this_or_that.
+  destruct (Nat.compare (depth sa) (depth sb)); cbn; auto.
+  destruct ra, rb; cbn; auto using reach_refl.
+  all: match goal with |- context [let '(_, _) := ?x in _] => destruct x as [pick ix] end.
+  all: destruct pick, ix; cbn; auto; (eapply reach_trans; [|apply save_conflicts_reach]); auto.
+Qed.
+
+Lemma or_reach eva evb : ev_reach eva -> ev_reach evb -> ev_reach (or_body eva evb).
+Proof.
+  intros Ha Hb s. unfold or_body. specialize (Ha s). specialize (Hb s).
+  destruct (eva s) as [ra sa]. destruct (evb s) as [rb sb]. cbn in Ha, Hb.
+  pose proof (this_or_that_reach ra rb s sa sb Ha Hb) as Ht.
+  destruct ra; cbn; auto; destruct rb; cbn; auto;
+    destruct (this_or_that _ _ s sa sb) as [[[|]|e] s']; cbn in *; exact Ht.
+Qed.
+
+Lemma con_go_reach ff evs s first acc err :
+  Forall ev_reach evs -> reach s (snd (con_go ff evs s first acc err)).
+Proof.
+  intros Hall. revert s first acc err.
+  induction Hall as [|ev evs Hev Hall IH]; intros s first acc err; cbn.
+  - destruct err; cbn; [constructor|apply reach_current].
+  - specialize (Hev s). destruct (ev s) as [r s']. cbn in Hev.
+    destruct r; cbn; auto.
+    + eapply reach_trans; [exact Hev|apply IH].
+    + destruct (ff && first); cbn; [exact Hev|].
+      eapply reach_trans; [exact Hev|apply IH].
+Qed.
+
+Lemma con_reach ff evs : Forall ev_reach evs -> ev_reach (con_body ff evs).
+Proof.
+  intros Hall s. unfold con_body, con_reset.
+  pose proof (con_go_reach ff evs s true [] None Hall) as H.
+  destruct (con_go ff evs s true [] None) as [r s']. cbn in *.
+  eapply reach_trans; [exact H|apply reach_current].
+Qed.
+
+(* ---- adjacent groups *)
+Definition adj_step_reach (s0 : state) (st : adj_step) : Prop :=
+  match st with
+  | AReturn _ s | AStop _ s => reach s0 s
+  | ANext b => reach s0 (b_args b)
+  end.
+
+Lemma adj_inner_reach ev s0 orig before fuel this_arg best :
+  ev_reach ev -> reach s0 orig -> reach s0 this_arg -> reach s0 (b_args best) ->
+  adj_step_reach s0 (adj_inner ev orig before fuel this_arg best).
+Proof.
+  intros Hev Ho. revert this_arg best.
+  induction fuel as [|f IH]; intros this_arg best Ht Hb; [exact Ht|].
+  rewrite adj_inner_S. pose proof (Hev this_arg) as He. destruct (ev this_arg) as [r ta]. cbn in He.
+  assert (Hta : reach s0 ta) by rtrans.
+  destruct r; cbn; auto.
+  - destruct (adjacent_scope ta orig) as [| |a b]; cbn; auto.
+    + destruct (set_scope ta (sc_start orig) (sc_end orig)) as [fin|] eqn:Hs; cbn; auto.
+      eapply reach_trans; [exact Hta|eapply reach_scope; eauto].
+    + destruct (set_scope orig a b) as [ta'|] eqn:Hs; cbn; auto.
+      apply IH; auto. eapply reach_trans; [exact Ho|eapply reach_scope; eauto].
+  - destruct (Nat.ltb before (remaining ta)); cbn; auto.
+    destruct (Nat.ltb (b_consumed best) (before - remaining ta)); cbn; auto.
+Qed.
+
+Lemma adj_try_reach ev s0 orig width start best :
+  ev_reach ev -> reach s0 orig -> reach s0 (b_args best) ->
+  adj_step_reach s0 (adj_try ev orig width start best).
+Proof.
+  intros Hev Ho Hb. unfold adj_try.
+  destruct (set_scope orig start (length (items orig))) as [ta0|] eqn:H0; cbn; auto.
+  assert (R0 : reach s0 ta0) by (eapply reach_trans; [exact Ho|eapply reach_scope; eauto]).
+  destruct (set_scope ta0 start (start + width)) as [scratch|] eqn:H1; cbn; auto.
+  assert (R1 : reach s0 scratch) by (eapply reach_trans; [exact R0|eapply reach_scope; eauto]).
+  destruct (Nat.eqb (remaining scratch) 0); cbn; auto.
+  pose proof (Hev scratch) as He. destruct (ev scratch) as [r0 scratch']. cbn in He.
+  assert (R2 : reach s0 scratch') by rtrans.
+  assert (Hmain :
+    adj_step_reach s0
+      (if Nat.eqb (remaining scratch) (remaining scratch') then ANext best
+       else match set_scope ta0 start (sc_end orig) with
+            | None => AStop (RPanic P_set_scope) orig
+            | Some this_arg1 =>
+              match (if Nat.ltb (remaining this_arg1) (sc_end orig - start)
+                     then let '(a, b) := adjacently_available_from this_arg1 start in
+                          set_scope this_arg1 a b
+                     else Some this_arg1) with
+              | None => AStop (RPanic P_set_scope) orig
+              | Some this_arg2 =>
+                adj_inner ev orig (remaining this_arg1) (loop_fuel orig) this_arg2 best
+              end
+            end)).
+  { destruct (Nat.eqb (remaining scratch) (remaining scratch')); cbn; auto.
+    destruct (set_scope ta0 start (sc_end orig)) as [ta1|] eqn:H2; cbn; auto.
+    assert (R3 : reach s0 ta1) by (eapply reach_trans; [exact R0|eapply reach_scope; eauto]).
+    destruct (Nat.ltb (remaining ta1) (sc_end orig - start)).
+    - destruct (adjacently_available_from ta1 start) as [a b].
+      destruct (set_scope ta1 a b) as [ta2|] eqn:H3; cbn; auto.
+      apply adj_inner_reach; auto.
+      eapply reach_trans; [exact R3|eapply reach_scope; eauto].
+    - apply adj_inner_reach; auto. }
+  destruct r0; cbn; auto.
+Qed.
+
+Lemma adj_outer_reach ev s0 orig width starts best :
+  ev_reach ev -> reach s0 orig -> reach s0 (b_args best) ->
+  reach s0 (snd (adj_outer ev orig width starts best)).
+Proof.
+  intros Hev Ho. revert best. induction starts as [|st more IH]; intros best Hb; cbn; auto.
+  pose proof (adj_try_reach ev s0 orig width st best Hev Ho Hb) as Ht.
+  destruct (adj_try ev orig width st best); cbn in *; auto.
+Qed.
+
+Lemma adjacent_reach ev fi : ev_reach ev -> ev_reach (eval_adjacent ev fi).
+Proof.
+  intros Hev s. unfold eval_adjacent. destruct fi as [it|]; cbn; [|constructor].
+  apply adj_outer_reach; auto using reach_refl.
+Qed.
+
+(* ---- commands and run_subparser *)
+Lemma cmd_reach name aliases shorts help adjacent m_sub i_sub run :
+  (forall w, In w ((name :: aliases) ++ map utf8_encode_char shorts) -> K (KCmd w)) ->
+  run_reach run ->
+  ev_reach (cmd_body name aliases shorts help adjacent m_sub i_sub run).
+Proof.
+  intros Hk Hrun s. unfold cmd_body.
+  pose proof (take_cmd_any_reach _ s Hk) as H1.
+  destruct (take_cmd_any _ s) as [hit s1]. cbn in H1.
+  destruct hit; cbn; [|exact H1].
+  destruct (current s1) as [cur|]; cbn; [|exact H1].
+  destruct (set_scope s1 cur (sc_end s1)) as [s2|] eqn:H2; cbn; [|exact H1].
+  assert (R2 : reach s s2) by (eapply reach_trans; [exact H1|eapply reach_scope; eauto]).
+  set (s3 := set_path s2 (path s2 ++ [name])).
+  assert (R3 : reach s s3) by (eapply reach_trans; [exact R2|apply reach_path]).
+  destruct adjacent.
+  - match goal with |- context [adjacently_available_from ?x ?y] =>
+      destruct (adjacently_available_from x y) as [a b] end.
+    destruct (set_scope s3 a b) as [s4|] eqn:H4; cbn; [|exact R3].
+    assert (R4 : reach s s4) by (eapply reach_trans; [exact R3|eapply reach_scope; eauto]).
+    pose proof (Hrun s4) as H5. destruct (run s4) as [r s5]. cbn in H5.
+    assert (R5 : reach s s5) by rtrans.
+    destruct r as [v|f|w|]; cbn; auto.
+    + match goal with |- context [set_scope s5 ?x ?y] =>
+        destruct (set_scope s5 x y) as [s6|] eqn:H6 end; cbn; auto.
+      eapply reach_trans; [exact R5|eapply reach_scope; eauto].
+    + destruct (adjacent_scope s5 s3) as [| |na nb]; cbn; auto.
+      destruct (set_scope s3 na nb) as [o1|] eqn:H7; cbn; auto.
+      assert (R7 : reach s o1) by (eapply reach_trans; [exact R3|eapply reach_scope; eauto]).
+      pose proof (Hrun o1) as H8. destruct (run o1) as [r2 o2]. cbn in H8.
+      assert (R8 : reach s o2) by rtrans.
+      destruct r2; cbn; auto.
+      match goal with |- context [set_scope o2 ?x ?y] =>
+        destruct (set_scope o2 x y) as [o3|] eqn:H9 end; cbn; auto.
+      eapply reach_trans; [exact R8|eapply reach_scope; eauto].
+  - pose proof (Hrun s3) as H4. destruct (run s3) as [r s4]. cbn in H4.
+    assert (R4 : reach s s4) by rtrans.
+    destruct r; cbn; auto.
+Qed.
+
+Lemma info_eval_reach i s :
+  K (KFlag (i_help_arg i)) -> K (KFlag (i_version_arg i)) -> reach s (snd (info_eval env i s)).
+Proof.
+  intros Hh Hv. unfold info_eval.
+  pose proof (eval_flag_reach (i_help_arg i) VUnit None Hh) as Eh.
+  pose proof (eval_flag_reach (i_version_arg i) VUnit None Hv) as Ev.
+  pose proof (Eh s) as H1. destruct (eval_flag env (i_help_arg i) VUnit None s) as [r1 s1]. cbn in H1.
+  assert (Hver : reach s (snd (match i_version i with
+                               | Some v => match eval_flag env (i_version_arg i) VUnit None s1 with
+                                           | (ROk _, s2) => (Some (ExVersion v), s2)
+                                           | (_, s2) => (None, s2)
+                                           end
+                               | None => (None, s1)
+                               end))).
+  { destruct (i_version i); cbn; auto.
+    pose proof (Ev s1) as H2. destruct (eval_flag env (i_version_arg i) VUnit None s1) as [r2 s2].
+    cbn in H2. assert (reach s s2) by rtrans. destruct r2; cbn; auto. }
+  destruct r1; try exact Hver.
+  pose proof (Eh s1) as H2. destruct (eval_flag env (i_help_arg i) VUnit None s1) as [r2 s2].
+  cbn in H2. assert (reach s s2) by rtrans. destruct r2; cbn; auto.
+Qed.
+
+Lemma run_sub_body_reach inf m s res :
+  K (KFlag (i_help_arg inf)) -> K (KFlag (i_version_arg inf)) ->
+  reach s (snd res) -> reach s (snd (run_sub_body env inf m s res)).
+Proof.
+  intros Hh Hv Hr. unfold run_sub_body. destruct res as [r s1]. cbn in Hr.
+  assert (Hfin : forall err,
+             reach s (snd (match info_eval env inf s1 with
+                           | (Some (ExHelp detailed), s2) =>
+                             if invariant_ok m
+                             then (SFail (FStdout (HHelp (path s2) inf m detailed)), s2)
+                             else (SPanic P_invariant, s2)
+                           | (Some (ExVersion v), s2) => (SFail (FStdout (HVersion v)), s2)
+                           | (None, s2) => (SFail (FStderr err), s2)
+                           end))).
+  { intros err. pose proof (info_eval_reach inf s1 Hh Hv) as Hi.
+    destruct (info_eval env inf s1) as [ex s2]. cbn in Hi.
+    assert (reach s s2) by rtrans.
+    destruct ex as [[d|v]|]; cbn; auto. destruct (invariant_ok m); cbn; auto. }
+  destruct r as [v|e|w|]; cbn; auto.
+  - destruct (first_item_ix s1); cbn; auto.
+  - match goal with |- context [if ?c then _ else _] => destruct c end.
+    + destruct (invariant_ok m); cbn; auto.
+    + destruct e; cbn; auto.
+Qed.
 
 End WithEnv.
+End Reach.
+
+(* ------------------------------------------------------------------ which consumers a parser has *)
+Fixpoint kinds_ok (K : ckind -> Prop) (p : parser) {struct p} : Prop :=
+  match p with
+  | PFlag n _ _ => K (KFlag n)
+  | PArg n _ _ _ => K (KArgKey n) /\ K (KArgVal n)
+  | PPos _ _ _ _ => K KPos
+  | PAny _ _ _ _ => K KAny
+  | PCmd name aliases shorts _ _ sub =>
+    (forall w, In w ((name :: aliases) ++ map utf8_encode_char shorts) -> K (KCmd w)) /\
+    okinds_ok K sub
+  | PCon fields | PAdj fields => lkinds_ok K fields
+  | POr a b => kinds_ok K a /\ kinds_ok K b
+  | POptional q _ | PMany q _ | PSome q _ _ | PCollect q _ | PCount q | PLast q
+  | PFallback q _ _ | PFallbackWith q _ _ | PGuard q _ _ | PParse q _ | PMap q _
+  | PHide q | PUsage q _ | PGroupHelp q _ | PBoxed q => kinds_ok K q
+  | PPure _ | PPureWith _ | PFail _ => True
+  end
+with lkinds_ok (K : ckind -> Prop) (ps : plist) {struct ps} : Prop :=
+  match ps with
+  | PNil => True
+  | PCons q t => kinds_ok K q /\ lkinds_ok K t
+  end
+with okinds_ok (K : ckind -> Prop) (o : oparser) {struct o} : Prop :=
+  match o with
+  | Options q inf => K (KFlag (i_help_arg inf)) /\ K (KFlag (i_version_arg inf)) /\ kinds_ok K q
+  end.
+
+Scheme parser_mut := Induction for parser Sort Prop
+  with plist_mut := Induction for plist Sort Prop
+  with oparser_mut := Induction for oparser Sort Prop.
+Combined Scheme parser_plist_oparser_ind from parser_mut, plist_mut, oparser_mut.
+
+Theorem eval_reach_all K env :
+  (forall p, kinds_ok K p -> ev_reach K (eval env p)) /\
+  (forall ps, lkinds_ok K ps -> Forall (ev_reach K) (evals env ps)) /\
+  (forall o, okinds_ok K o -> run_reach K (run_sub env o)).
+Proof.
+  apply parser_plist_oparser_ind; intros; cbn [kinds_ok lkinds_ok okinds_ok] in *;
+    try (intros s; autorewrite with evaleq).
+  - apply eval_flag_reach; auto.
+  - apply eval_arg_reach; tauto.
+  - apply eval_pos_reach; auto.
+  - apply eval_any_reach; auto.
+  - apply cmd_reach; [tauto|]. apply H. tauto.
+  - (* PCon *) destruct fields as [|q1 [|q2 t]].
+    + rewrite eval_PCon_nil. cbn. apply reach_current.
+    + rewrite eval_PCon_one. specialize (H H0). rewrite evals_cons in H. inv H. auto.
+    + rewrite eval_PCon_many. apply con_reach; auto.
+  - apply adjacent_reach. apply con_reach; auto.
+  - apply or_reach; [apply H|apply H0]; tauto.
+  - apply optional_reach; auto.
+  - apply many_reach; auto.
+  - apply some_reach; auto.
+  - apply many_reach; auto.
+  - apply count_reach; auto.
+  - apply last_reach; auto.
+  - apply fallback_with_reach; auto.
+  - apply fallback_with_reach; auto.
+  - apply guard_reach; auto.
+  - apply parse_reach; auto.
+  - apply map_reach; auto.
+  - apply hide_reach; auto.
+  - apply H; auto.
+  - apply H; auto.
+  - cbn. apply reach_current.
+  - destruct r; cbn; constructor.
+  - cbn. apply reach_current.
+  - apply H; auto.
+  - rewrite evals_nil. constructor.
+  - rewrite evals_cons. constructor; [apply H|apply H0]; tauto.
+  - rewrite run_sub_eq. apply run_sub_body_reach; try tauto. apply H. tauto.
+Qed.
+
+Definition eval_reach K env := proj1 (eval_reach_all K env).
+Definition run_sub_reach K env := proj2 (proj2 (eval_reach_all K env)).
